@@ -642,6 +642,36 @@ class _Gen:
             g.emit(["cancel_versioning", g.any_tid(False)])
 
 
+def _reversion_shuffle(rng, g):
+    """unversion_file(t) followed by version_file(t, X) on the same trans id, X being the id of ANOTHER tree
+    entry (still versioned, or unversioned/deleted in this transform too), t's own old id, or a fresh one;
+    optionally combined with a move or a content change of either entry."""
+    base = g.base
+    vers = [i + 1 for i, b in enumerate(base) if b[5] is not None]
+    if len(vers) < 2:
+        return
+    t, other = rng.sample(vers, 2)
+    r = rng.random()
+    if r < 0.2 and rng.random() < 0.5:
+        g.emit(["adjust", g.name(), g.dir_tid(), t])
+    g.emit(["unversion", t])
+    if r < 0.55:
+        fid = base[other - 1][5]                 # the other entry keeps its id: duplicate id
+    elif r < 0.75:
+        fid = base[other - 1][5]                 # the other entry gives its id away
+        g.emit(["unversion", other])
+        if rng.random() < 0.5:
+            g.emit(["delete", other])
+    elif r < 0.88:
+        fid = base[t - 1][5]                     # its own id again
+    else:
+        g.fresh += 1
+        fid = g.fresh
+    g.emit(["version", t, fid])
+    if rng.random() < 0.3:
+        g.emit(["adjust", g.name(), g.dir_tid(), rng.choice([t, other])])
+
+
 def _limbo_shuffle(rng, g):
     """New directories nested in new directories, files created inside them, then moved between them,
     names re-used, the directories renamed or moved: everything happens in limbo, so the preview reads
@@ -688,7 +718,9 @@ def _template(rng, g):
     files = [i + 1 for i, b in enumerate(base) if b[2] == "f"]
     dirs = [i + 1 for i, b in enumerate(base) if b[2] == "d"]
     kids = {d: [i + 1 for i, b in enumerate(base) if b[0] == d] for d in [0] + dirs}
-    k = rng.randrange(19)
+    k = rng.randrange(21)
+    if k >= 19:
+        return _reversion_shuffle(rng, g)
     if k >= 16:
         return _limbo_shuffle(rng, g)
     if k == 0 and len(files) >= 2:                      # swap two files
@@ -841,6 +873,15 @@ def corpus():
         [["delete", 1], ["new_file", "a", 0, "N", 31, None]],
         [["new_dir", "x", 2, 32], ["delete", 3]],
         [["delete", 5], ["adjust", "b", 0, 1]],
+    ]
+    ops += [
+        # unversion + version of the same trans id with the id of another tree entry (duplicate id), with an id
+        # the other entry gave away, with its own id
+        [["unversion", 1], ["version", 1, 4]],
+        [["unversion", 3], ["version", 3, 2]],
+        [["unversion", 1], ["unversion", 5], ["version", 1, 4]],
+        [["unversion", 1], ["version", 1, 1]],
+        [["unversion", 5], ["version", 5, 1], ["adjust", "b", 2, 5]],
     ]
     out = [{"base": B0, "ops": o} for o in ops]
     # unversioned tree directory with a versioned child, moved into itself: repaired 3ace332, must pass
